@@ -1130,7 +1130,9 @@ def catalog_outputs(cat, o, names=None, methods=True):
         m['m_kron_apertures2'] = _guard(lambda: cat.make_kron_apertures(o['kron2']), 'm')
         m['m_circ_apertures'] = _guard(lambda: cat.make_circular_apertures(o['circ_r']), 'm')
         cuts = _guard(lambda: cat.make_cutouts(tuple(o['cutout_shape']), mode='partial', fill_value=np.nan), 'm')
-        if isinstance(cuts, Raised):
+        if o.get('border_mode'):
+            pass          # cutouts beyond the frame are NaN-filled there and zero in the canvas: not compared
+        elif isinstance(cuts, Raised):
             m['m_cutout_data'] = m['m_cutout_bbox'] = cuts
         else:
             cl = _aslist(cuts)
@@ -1172,6 +1174,11 @@ def catalog_rows(out, o, kron_params):
     gy = 0.25 * (bb[:, 3] - bb[:, 2]) + w + 2.0 if w else 0.0
     rows = np.column_stack([np.fmin(xc - r, bb[:, 0] - gx), np.fmax(xc + r, bb[:, 1] + gx),
                             np.fmin(yc - r, bb[:, 2] - gy), np.fmax(yc + r, bb[:, 3] + gy)])
+    if o.get('border_mode'):
+        # margin-less scenes with localbkg_width = 0: every measurement is a weighted SUM over data that is nothing
+        # outside the original frame and exactly zero in the padded canvas, so apertures overhanging the frame give
+        # identical sums in both frames; the footprint of a row is its segment (always inside)
+        rows = np.column_stack([bb[:, 0], bb[:, 1] - 1.0, bb[:, 2], bb[:, 3] - 1.0]).astype(float)
     rows[~np.isfinite(rows).all(axis=1)] = np.nan      # NaN rows are excluded (never inside)
     assert len(rows) == n
     return rows
@@ -1287,7 +1294,10 @@ def prep_dataprops(rng, scene):
     h = Pair((int(rng.integers(6, 12)), int(rng.integers(6, 12))))
     mode = _opt(rng, 'source', 'source', 'source', 'peakmask', 'peakmask', 'tiny', 'edge')
     d = dict(center=XY(np.rint(src)), half=h, use_mask=_use(rng, 0.5), use_bkg=_use(rng, 0.5), mode=mode,
-             own_mask=None)
+             own_mask=None,
+             # the rarely used keyword at a non-default, NON-INTEGER value: scalar background level vs 2-D array
+             bkg_form=_opt(rng, 'array', 'scalar', 'scalar'),
+             bkg_level=float(np.round(rng.uniform(0.6, 9.4), 2) + 0.01) * scene.get('scale', 1.0))
     if mode == 'peakmask':
         # 5 of the 9 pixels around the brightest pixel of the cutout masked: quadratic fit has < 6 points -> fallback
         d['use_mask'] = True
@@ -1323,6 +1333,8 @@ def run_dataprops(s, o):
     data = s['data'][sl]
     mask = s['mask'][sl] if o['use_mask'] else None
     bkg = s['bkg'][sl] if o['use_bkg'] else None
+    if o['use_bkg'] and o.get('bkg_form') == 'scalar':
+        bkg = o['bkg_level'] if o.get('unit') is None else o['bkg_level'] * o['unit']
     if o.get('own_mask') is not None:
         dd = np.where(np.isfinite(data), data, -np.inf)
         iy, ix = np.unravel_index(np.argmax(dd), dd.shape)
@@ -2038,7 +2050,11 @@ def prep_tools(rng, scene):
                                                                                            int(rng.integers(5, 15)))),
                 cut_mode=_opt(rng, 'trim', 'partial'), r=float(rng.uniform(2.5, 5.0)),
                 use_mask=_use(rng, 0.5), use_error=_use(rng, 0.5), thr=float(rng.uniform(2.0, 4.0)),
-                epsf=_use(rng, 0.3), depth=_use(rng, 0.4), seed=int(rng.integers(0, 2 ** 31)))
+                epsf=_use(rng, 0.3), depth=_use(rng, 0.4), seed=int(rng.integers(0, 2 ** 31)),
+                fwhm0=_opt(rng, None, float(np.round(rng.uniform(2.3, 5.7), 2))), fix_fwhm=_use(rng, 0.3),
+                sf_kw=dict(connectivity=int(_opt(rng, 8, 4)), deblend=_use(rng, 0.7), nlevels=int(_opt(rng, 32, 12)),
+                           contrast=float(_opt(rng, 0.001, 0.0137)), mode=_opt(rng, 'exponential', 'linear', 'sinh'),
+                           relabel=_use(rng, 0.7)), sf_npix=int(rng.integers(3, 9)))
 
 
 def run_tools(s, o):
@@ -2064,11 +2080,14 @@ def run_tools(s, o):
     # LocalBackground documents `data : 2D ndarray` only (a Quantity raises TypeError in np.array(bkg)): units stripped
     out['local_background'] = lb(data if unit is None else split_unit(data)[0], pos[:, 0], pos[:, 1], mask=mask)
     # fit_2dgaussian / fit_fwhm
-    f2 = fit_2dgaussian(data, xypos=pos[:3], fit_shape=o['fit_shape'], fix_fwhm=False, mask=mask, error=err)
+    f2 = fit_2dgaussian(data, xypos=pos[:3], fit_shape=o['fit_shape'], fwhm=o['fwhm0'], fix_fwhm=o['fix_fwhm'],
+                        mask=mask, error=err)
     r = f2.results
-    out['fit2dg'] = np.column_stack([np.asarray(split_unit(r[c])[0], float) for c in ('x_fit', 'y_fit', 'fwhm_fit')])
+    out['fit2dg'] = np.column_stack([np.asarray(split_unit(r[c])[0], float) for c in ('x_fit', 'y_fit', 'fwhm_fit')
+                                     if c in r.colnames])
     out['fit2dg_flux'] = r['flux_fit']
-    out['fitfwhm'] = np.asarray(fit_fwhm(data, xypos=pos[:3], fit_shape=o['fit_shape'], mask=mask, error=err), float)
+    out['fitfwhm'] = np.asarray(fit_fwhm(data, xypos=pos[:3], fit_shape=o['fit_shape'], fwhm=o['fwhm0'], mask=mask,
+                                         error=err), float)
     # the xypos=None form (position from centroid_com of the cutout)
     cm = None if mask is None else mask[sl]
     ce = None if err is None else err[sl]
@@ -2098,7 +2117,8 @@ def run_tools(s, o):
     thr = o['thr'] * s['sigma'] * 0.45 + s.get('offset', 0.0)
     if o.get('conv_variant') is not None:
         conv = o['conv_variant'](conv)
-    seg = SourceFinder(npixels=5, progress_bar=False)(conv if unit is None else conv * unit, _q(thr, o), mask=mask)
+    seg = SourceFinder(npixels=o['sf_npix'], progress_bar=False, **o['sf_kw'])(
+        conv if unit is None else conv * unit, _q(thr, o), mask=mask)
     out['sf_nlabels'] = 0 if seg is None else int(seg.nlabels)
     if seg is not None:
         out['sf_labels'] = np.array(seg.data)
